@@ -72,6 +72,12 @@ package masks
 //@   ensures [reset-last] old(recv.resetMask) != nil && len(old(recv.resetMask.Paths)) > 0 && (old(recv.updateMask) == nil || len(old(recv.updateMask.Paths)) > 0) &&
 //@   |   (old(recv.writableFields) == nil || len(old(recv.writableFields.Paths)) > 0) ==>
 //@   |   (exists pre mathint :: msgval(dst) == pruned(pre, old(recv.resetMask.Paths)))
+//@   // C05: whatever the update mask says, the source is first cut down to the writable fields, then to the update mask:
+//@   // two filters when both are set, so a path that validation let through as a prefix of a narrower writable path cannot
+//@   // carry sibling fields into the store
+//@   track Filter
+//@   ensures [writable-filter] old(recv.writableFields) != nil && len(old(recv.writableFields.Paths)) > 0 && old(recv.updateMask) != nil && len(old(recv.updateMask.Paths)) > 0 ==> calls(Filter) == old(calls(Filter)) + 2
+//@   ensures [mask-filter] (old(recv.writableFields) == nil || len(old(recv.writableFields.Paths)) > 0) && (old(recv.updateMask) == nil || len(old(recv.updateMask.Paths)) > 0) ==> calls(Filter) >= old(calls(Filter)) + 1
 //@   ensures [frame] msgframe(dst, src)
 //@   modifies msgs, ghost$msg
 //@
